@@ -156,15 +156,15 @@ Proof. exact fx_values. Qed.
    C01 alphabet in which every build ran deterministic commands, the build of a plan of deterministic commands gives the
    same verdict and the same content of every file under every interleaving of the rule threads *)
 Theorem C06_every_history_every_interleaving : forall t0 (ops : list (op sym)) goal w1 tbl pack ch1 ch2,
-  0 < t0 -> det_history sym sym_eqb SContent SList SRule (init_world Fine t0) ops ->
+  det_history sym sym_eqb SContent SList SRule (init_world Fine t0) ops ->
   let w := fold_left (fun w o => fst (apply_op sym_eqb SContent SList SRule w o)) ops (init_world Fine t0) in
   init_dir sym w = Ok (w1, tbl) -> get_nodes sym w1 RULES_PATH goal = Ok pack -> Forall det_node (p_nodes pack) ->
   complete_run_sym ch1 w RULES_PATH goal -> complete_run_sym ch2 w RULES_PATH goal ->
   o_verdict (build_fine_sym ch1 w RULES_PATH goal) = o_verdict (build_fine_sym ch2 w RULES_PATH goal) /\
   forall p, content_at (o_world (build_fine_sym ch1 w RULES_PATH goal)) p = content_at (o_world (build_fine_sym ch2 w RULES_PATH goal)) p.
 Proof.
-  intros t0 ops goal w1 tbl pack ch1 ch2 Ht0 Hd w Hi Hg Hdet Hc1 Hc2.
-  destruct (reach_hist_sound_partial_sym t0 ops Ht0 Hd) as [Hinv Hs].
+  intros t0 ops goal w1 tbl pack ch1 ch2 Hd w Hi Hg Hdet Hc1 Hc2.
+  destruct (reach_hist_sound_partial_sym t0 ops Hd) as [Hinv Hs].
   exact (build_fine_schedule_independent_sym w RULES_PATH goal w1 tbl pack ch1 ch2 Hinv Hs Hi Hg Hdet Hc1 Hc2).
 Qed.
 
